@@ -169,8 +169,7 @@ def run_case(ctx, res, p):
             if p.get("std") is not None:
                 Fm = np.asarray(p["Lest"], float) * np.asarray(p["std"], float)[None, :]
             else:
-                rows = n if fam == "full" else nb
-                Fm = np.diag(np.broadcast_to(np.asarray(sigma, float), (rows,)))
+                Fm = np.diag(np.broadcast_to(np.asarray(sigma, float), (n,)))   # the noise acts on the n observations
             cols = [Fm[:, k] for k in range(Fm.shape[1])]
             shift = lambda col: build(p, False, Yover=(np.exp(np.log(Y) + col) if variant == "exp" else Y + col))[0]
         raw = lambda pr: np.asarray(pr(Xq, logscale=True) if variant == "exp" else pr(Xq), float)
@@ -307,11 +306,11 @@ def gen_case(rng, stream):
             Lest = rng.normal(size=(n, r)) * 0.5
             std = np.exp(rng.uniform(-3, 0, size=r))
         else:
-            if family == "lm":
-                # per-landmark sigma needs m == n for the W factor (shape error otherwise: recorded under C15)
+            source = ["sigma-scalar", "sigma-vector"][rng.integers(2)]
+            if family == "lm" and source == "sigma-vector":
+                # a vector sigma is sized by the landmarks for the m x m system and by the cells for W: needs m == n
                 Xu = X[rng.permutation(n)].copy() + (0.05 * rng.normal(size=X.shape) if variant != "time" else 0)
                 Xu_sub = None
-            source = ["sigma-scalar", "sigma-vector"][rng.integers(2)]
             nb = n
             sigma = loguniform(rng, 0.05, 1.0) if source == "sigma-scalar" else np.exp(rng.uniform(-3, 0, size=nb))
     return {"op": "unc", "variant": variant, "family": family, "tree": tree, "X": X, "Xu": Xu, "Xu_sub": Xu_sub,
